@@ -26,6 +26,10 @@ pub struct UtcDateTime(
 
 impl Default for UtcDateTime {
     fn default() -> Self {
+        #[cfg(sos_verif)]
+        if let Some(now) = crate::verif_hooks::clock_override() {
+            return Self(now);
+        }
         Self(OffsetDateTime::now_utc())
     }
 }
